@@ -143,6 +143,17 @@ def run(ctx):
             if len(contents) > 1 and er != "ESTALE":
                 violations.append({"what": "two copies of the key after a reported success: %s (failed call: %s %s on %s)" % (sorted(keyfiles), call, er, path), "classification": dict(label, kind="duplicate"),
                                    "replay": {"kind": "fault", "scenario": L, "fault_seq": seq, "errno": er, "result": impl.results[1][1], "copies": sorted(keyfiles)}})
+            # the maintenance that ran inside a successful write (the trace shows it listing the directory) is part of
+            # what it reports: the directory it left holds at most its capacity plus the entry just inserted (faults that the library documents
+            # as an absence - ESTALE, ENOENT - aside: an entry it cannot see is one it cannot count)
+            scanned = {str(e.get("path")) for e in (impl.steps[0]["events"] if impl.steps else []) if e["call"] == "opendir" and not e["err"]}
+            if desc["pre"] == "over" and er not in ("ESTALE", "ENOENT") and keyfiles and keyfiles[0].rsplit("/", 1)[0] in scanned:
+                dd = keyfiles[0].rsplit("/", 1)[0]
+                held = [p for p in snap if snap[p][1] == "f" and p.rsplit("/", 1)[0] == dd and not p.rsplit("/", 1)[1].startswith(".")]
+                if len(held) > 2 + 1:
+                    violations.append({"what": "%s reported success, yet the maintenance it ran left %d entries in %s (capacity 2, plus its own insertion): the failed %s (%s) was swallowed" % (opn, len(held), dd, call, er),
+                                       "classification": dict(label, kind="masked-maintenance"),
+                                       "replay": {"kind": "fault", "scenario": L, "fault_seq": seq, "errno": er, "result": impl.results[1][1], "left": sorted(held)}})
         # 2b. a failed call must not be masked as a miss: the entry exists, the fault is not an absence
         if desc["pre"] in ("present", "alt") and er not in ("ESTALE", "ENOENT"):
             if (opn == "get" and cls == "OkNone") or (opn == "touch" and impl.results[1][1].startswith("OkBool 0")):
